@@ -791,7 +791,16 @@ func (p *parser) assignCallee(exp ast.Expression, calleeIdent *ast.Identifier) (
 			p.errors = append(p.errors, msg)
 		}
 	case *ast.CallExpression:
-		ss.Callee = calleeIdent
+		if root, ok := ss.Callee.(*ast.Identifier); ok && root != nil {
+			// the call has a receiver chain of its own (x.a.b.M()): keep
+			// it, and hang it below the value it is selected from
+			for root.Callee != nil {
+				root = root.Callee
+			}
+			root.Callee = calleeIdent
+		} else {
+			ss.Callee = calleeIdent
+		}
 		assignedCallee = ss
 	case *ast.Identifier:
 		ss.OriginalCallee.Callee = calleeIdent
